@@ -178,7 +178,7 @@ fn case_typed<S: Spec>(sub: &str, id: u64, r: &mut Report) {
         }
         "from_rng" => {
             let is_xs = S::NAME == "XorShiftRng";
-            let k = if !is_xs { 0 } else if p.chance(1, 2) { p.below(4) as usize } else { *p.pick(&ZERO_BLOCK_COUNTS) };
+            let k = if !is_xs { 0 } else if p.chance(1, 2) { p.below(4) as usize } else { *p.pick(zero_block_counts()) };
             let need = expected_calls::<S>(k).iter().map(|c| if let SrcCall::Fill(n) = c { *n } else { 0 }).sum::<usize>();
             let mut data = vec![0u8; k * 16];
             // sometimes an all-zero block for the remapping generators
